@@ -11,7 +11,7 @@ CLAIMED = {
    note="Bounds as stated. Capability and the deprecated AuthAccount/PublicAccount primitive numbers (converted to other types by design) are excluded. Locations containing '.', composite/interface/intersection types and entitlement authorizations (need an elaborated program), the checker's InvalidType placeholder (not exportable by design) and the Cadence-level run-time type constructors (OptionalType(...), ...) are outside the claim.",
    design="3 C45"),
  "C42": dict(
-   text="CCF, scalar values and small containers: (1) round trip - for every value of each of the 14 fixed-width integer/Word/fixed-point kinds, Fix128/UFix128, Bool, Address (full width), Int/UInt (|x|<2^128), Int128/UInt128/Word128 (256-bit kinds in thorough), String and Path identifier (every valid UTF-8 text <=3 bytes), Optional(UInt8)/nil, arrays of <=2 UInt16, the real ccf.Encode followed by the real ccf.Decode - with fxamacker/cbor's stream encoder/decoder executed from source - succeeds and yields a value of the same kind and content; a dictionary of two entries with distinct symbolic keys encodes to the same bytes in both insertion orders and decodes to exactly those entries; a struct with two fields (type-definition message) round-trips with the same type ID and field values, its deterministic-mode encoding is the same for both declaration orders of the fields and the strict decoder accepts it; a resource, an event and an enum with symbolic field values round-trip with the same type ID and fields; type values over 12 simple types and 7 derived shapes (optional, arrays with a symbolic size, dictionary, reference, capability, nested) decode to an equal type with the same type ID; (2) decoder robustness - ccf.Decode never panics on every byte string <=3 bytes, every 1..2 (thorough 3) bytes after a type-and-value head and after a simple-type tag, and 1 (thorough 2) bytes as the value of each of 30 scalar simple types; (3) the canonical-order comparators of deterministic mode on three arbitrary pairwise-distinct keys of 0..3 bytes are strict total orders equal to the reference order and agree with the predicates the strict decoder enforces (which reject duplicates).",
+   text="CCF, scalar values and small containers: (1) round trip - for every value of each of the 14 fixed-width integer/Word/fixed-point kinds, Fix128/UFix128, Bool, Address (full width), Int/UInt (|x|<2^128), Int128/UInt128/Word128 (256-bit kinds in thorough), String and Path identifier (every valid UTF-8 text <=3 bytes), Optional(UInt8)/nil, arrays of <=2 UInt16, the real ccf.Encode followed by the real ccf.Decode - with fxamacker/cbor's stream encoder/decoder executed from source - succeeds and yields a value of the same kind and content; a dictionary of two entries with distinct symbolic keys encodes to the same bytes in both insertion orders and decodes to exactly those entries; a struct with two fields (type-definition message) round-trips with the same type ID and field values, its deterministic-mode encoding is the same for both declaration orders of the fields and the strict decoder accepts it; a resource, an event and an enum with symbolic field values round-trip with the same type ID and fields; type values over 12 simple types and 7 derived shapes (optional, arrays with a symbolic size, dictionary, reference, capability, nested) decode to an equal type with the same type ID; (2) decoder robustness - ccf.Decode never panics on every byte string <=3 bytes, every 1..2 (thorough 3) bytes after a type-and-value head, 1..2 bytes after a simple-type tag, and 1 (thorough 2) bytes as the value of each of 30 scalar simple types (after a simple-type tag: 2 in both tiers); (3) the canonical-order comparators of deterministic mode on three arbitrary pairwise-distinct keys of 0..3 bytes are strict total orders equal to the reference order and agree with the predicates the strict decoder enforces (which reject duplicates).",
    note="Part of C42: contracts, attachments, nested type definitions, composite/function type values, capabilities, intersection/entitlement-set ordering inside types and inputs longer than the stated lengths are outside. The cbor library's package-level tables are initialised by executing the relevant slice of its init function; sync.Pool buffers are modelled as always reused.",
    design="3 C42"),
  "C18": dict(
